@@ -15,6 +15,8 @@ pub mod addr;
 pub mod instructions;
 pub mod registers;
 pub mod structures;
+#[cfg(feature = "verif_hooks")]
+pub mod verif_hooks;
 
 /// Represents a protection ring level.
 #[derive(Debug, Copy, Clone, PartialEq, Eq, Hash)]
